@@ -159,6 +159,27 @@ def run(tier, seed):
             pass
 
 
+STOP_PROP = os.environ.get('VERIF_SEEDTEST_STOP') or None      # never set by a registered check (results are not cached then)
+
+
+def _confirmed_early(native, spec, res, prop):
+    want = 'PANIC' if prop == 'C14' else prop
+    n = 0
+    for v in res.viols:
+        if v[0] != want:
+            continue
+        n += 1
+        if n > 3:
+            break
+        try:
+            okc, case, desc = confirm_violation(native, spec, v)
+        except Exception:
+            okc = False
+        if okc:
+            return True
+    return False
+
+
 def _run_with_pool(pool, tier, seed, B, prog, native, specs, roots, root_nodes, skipped, t_start):
     results = {}
     deadline = time.time() + B['explore_s']
@@ -172,6 +193,11 @@ def _run_with_pool(pool, tier, seed, B, prog, native, specs, roots, root_nodes, 
         log('[mapper] %-44s N=%d %s depth %2d states %6d paths %8d rest %2d viol %d %.1fs' % (
             spec.name, spec.N, 'FIXPOINT' if res.fixpoint else 'cut(%s)' % (res.cut or 'depth'), res.depth, res.states, res.paths,
             len(res.rest), len(res.viols), res.secs))
+        if STOP_PROP and _confirmed_early(native, spec, res, STOP_PROP):
+            # tools/seedtest.py only: a natively confirmed violation of the property under test ends the exploration
+            log('[mapper] VERIF_SEEDTEST_STOP=%s: confirmed violation on %s, skipping the remaining %d layouts' % (STOP_PROP, spec.name, len(order) - n - 1))
+            order = order[:n + 1]
+            break
     t_explore = time.time() - t_start
     # ---- C06 product phase
     pair_out = {}
@@ -281,7 +307,7 @@ def get_results(tier, seed):
     with _Lock('mapper-explore-%s' % tier):
         if time.time() - t_lock > 5:
             log('[mapper] waited %.0fs for another exploration holding the lock' % (time.time() - t_lock))
-        if os.path.exists(cp) and os.environ.get('VERIF_NOCACHE') != '1':
+        if os.path.exists(cp) and os.environ.get('VERIF_NOCACHE') != '1' and not STOP_PROP:
             try:
                 d = json.load(open(cp))
                 d['cache_hit'] = True
@@ -292,6 +318,8 @@ def get_results(tier, seed):
         d = run(tier, seed)
         log('[mapper] exploration finished in %.0fs' % (time.time() - t_run))
         d['cache_hit'] = False
+        if STOP_PROP:
+            return d        # partial exploration of a seed test: never cached
         tmp = cp + '.tmp%d' % os.getpid()
         with open(tmp, 'w') as f:
             json.dump(d, f, default=str)
@@ -352,6 +380,27 @@ def check(prop, tier, seed):
         if l.get('error'):
             oc.inconclusive.append('unsupported construct while exploring %s: %s' % (l['name'], l['error']))
             break
+    loop_leg = None
+    if prop == 'C19':
+        # "everything written to the virtual keyboard": the same fold over what the per-device loop writes
+        # (mapper steps and release-all batches in the order the loop sends them; shared loop exploration of C10-C12, C20)
+        from . import loopcheck
+        ld = loopcheck.get_results(tier, seed)
+        lp = ld['per_prop'].get('C19', {'violations': [], 'unconfirmed': []})
+        for v in lp['violations']:
+            oc.violations.append((v['role'], v['desc'], v['case']))
+        for u in lp['unconfirmed']:
+            oc.inconclusive.append('ENGINE-MISMATCH (symbolic violation not reproduced natively): ' + u)
+        for m in ld['mismatches']:
+            oc.inconclusive.append('model/native disagreement (loop): ' + m)
+        loop_leg = {
+            'clause': 'every non-chord write of do_remapping_loop_one_device presses only keys that are up and releases only keys that are down, folding all writes of a run in order',
+            'specs': [{'name': s['name'], 'paths': s['stats'].get('paths', 0), 'writes': s['stats'].get('sends', 0), 'E': s.get('E'), 'T': s.get('T'), 'B': s.get('B'), 'W': s.get('W')} for s in ld['specs']],
+            'paths': sum(s['stats'].get('paths', 0) for s in ld['specs']),
+            'writes': sum(s['stats'].get('sends', 0) for s in ld['specs']),
+            'work_units_cut_by_time_budget': ld['timed_out_units'],
+            'shared_exploration_cache_hit': ld.get('cache_hit', False), 'exploration_secs': ld['secs'],
+        }
     applies = APPLIES.get(prop, lambda l: True)
     lays = [l for l in d['layouts'] if applies(l)]
     states = sum(l['states'] for l in lays)
@@ -384,6 +433,8 @@ def check(prop, tier, seed):
         'skipped_layouts': d['skipped'], 'shared_exploration_cache_hit': d.get('cache_hit', False), 'exploration_secs': d['secs'],
         'mir': d['mir'],
     }
+    if loop_leg is not None:
+        cov['loop_leg'] = loop_leg
     assumptions = [
         'std models used (Vec, slice iterators, HashMap as association list, Option/Result, Box/vec! lowering) follow the std documentation; validated differentially against the native build on sampled paths every run',
         'key symbols range over the valid KeyCode discriminants; equality-only reasoning on them is complete because fewer than 40 symbols/constants meet a 484-value domain',
